@@ -177,6 +177,9 @@ func (opinion VoteOpinion) String() string {
 
 func (opinion VoteOpinion) Err() error {
 	opName := opinion.String()
+	if opName == "Invalid opinion" {
+		return errors.New("vote opinion must be one of [UNKNOWN, POSITIVE, NEGATIVE, GIVEUP]")
+	}
 	if opName == "" {
 		return errors.New("vote opinion must be one of [UNKNOWN, POSITIVE, NEGATIVE, GIVEUP]")
 	}
